@@ -14,6 +14,13 @@ class Adapter(EnvAdapter):
     state_overrides = {"score": _as_int, "reward": _as_int}
 
     def configs(self, tier):
+        # time-limit sweep ("for every value passed", C11): one surviving episode per value, no probes
+        from harness.envs.base import T_SWEEP_QUICK_FEW, T_SWEEP_THOROUGH_FEW
+
+        ts = T_SWEEP_QUICK_FEW if tier == "quick" else T_SWEEP_THOROUGH_FEW
+        return self._base_configs(tier) + [dict(id=f"r10c10_t{t}_sweep", ctor=dict(num_rows=10, num_cols=10, time_limit=t), episodes=1, max_steps=t + 2, policies=["survive"], probe_every=0, props=["C03", "C11"]) for t in ts]
+
+    def _base_configs(self, tier):
         def c(id, rows, cols, tl, **kw):
             d = dict(id=id, ctor=dict(num_rows=rows, num_cols=cols, time_limit=tl))
             d.update(kw)
